@@ -211,8 +211,18 @@ def check_csv(pt):
     if opts["delimiter"]:
         kw["delimiter"] = opts["delimiter"]
     s = io.StringIO(newline="")
+    args_before = (list(kw["mnemonics"]) if isinstance(kw["mnemonics"], list) else kw["mnemonics"],
+                   list(kw["units"]) if isinstance(kw["units"], list) else kw["units"])
     try:
         las.to_csv(s, **kw)
+        # exporting must not write into the caller's arguments, and exporting twice gives the same text
+        if (kw["mnemonics"], kw["units"]) != args_before:
+            return [V("csv-mutates-argument", pt, {"mnemonics": args_before[0], "units": args_before[1]},
+                      {"mnemonics": kw["mnemonics"], "units": kw["units"]})]
+        s2 = io.StringIO(newline="")
+        las.to_csv(s2, **kw)
+        if s2.getvalue() != s.getvalue():
+            return [V("csv-second-export-differs", pt, s.getvalue()[:200], s2.getvalue()[:200])]
     except Exception as e:
         if nc == 0:
             return [V("csv-raises-without-curves", pt, "zero records for zero depth steps", "%s: %s" % (type(e).__name__, str(e)[:120]),
